@@ -1,6 +1,8 @@
 package c07
 
 import (
+	"errors"
+	"github.com/GuanceCloud/platypus/pkg/errchain"
 	"encoding/json"
 	"fmt"
 	"math"
@@ -1120,7 +1122,7 @@ func TestLiteralsUnderConcurrentParses(t *testing.T) {
 		for k := 0; k <= phase*4; k++ { // phase 0: one round of rejected texts, then five, then nine
 			for _, bad := range rejected {
 				if _, err, _ := impl.Parse("bad.p", bad); err == nil {
-					t.Fatalf("harness: %q is accepted", bad)
+					rk.Fail(t, "concurrent-literals", replay{Src: bad, Expect: "rejected-text", Kind: "malformed"}, "malformed text was accepted (no tree of its statements, no diagnostic)\nsource: %q", bad)
 				}
 			}
 		}
@@ -1186,6 +1188,10 @@ func TestReplays(t *testing.T) {
 				judgeString(t, "replay", c.Kind, c.Src, expect{V: vReject}, strings.HasPrefix(c.Src, "`"), true)
 			case "rejected-or-exact":
 				judgeString(t, "replay", c.Kind, c.Src, expect{V: vWeak, Value: val}, strings.HasPrefix(c.Src, "`"), true)
+			case "rejected-text":
+				if stmts, err, crash := impl.Parse("c07.p", c.Src); crash == nil && err == nil {
+					rk.Fail(t, "replay", c, "malformed text was accepted as a program of %d statements\nsource: %q", len(stmts), c.Src)
+				}
 			default:
 				if _, _, bad := observe(c.Src, false); bad != "" {
 					rk.Fail(t, "replay", c, "%s", bad)
@@ -1193,6 +1199,43 @@ func TestReplays(t *testing.T) {
 			}
 		})
 	}
+}
+
+// TestMalformedNumerals: a numeral cut short or continued wrongly (an exponent without digits, a hexadecimal prefix
+// without digits, a hexadecimal numeral with a fraction, two dots) is not a numeric literal: the text is rejected with a
+// diagnostic - or, should a spelling be read as something, the tree still has one statement per statement of the text.
+// Never "accepted, and the statements are gone". The numeral stands alone, behind signs, as an operand, an element, an
+// argument, after valid statements and after an earlier malformed string literal.
+func TestMalformedNumerals(t *testing.T) {
+	nums := []string{"1e", "1E", "1e+", "1E-", "2.5e", "2.5E+", "7.e", "0x", "0X", "0x.", "0x1.8", "0xA.b", "0x1e+", "1.2.3", "1..2", "1e5e", "1e1.5", "0xg", "00x1", "1_000", "1e٣", "0x١"}
+	ctx := []string{"x = %s", "x = -%s", "x = - -%s", "x = 1 + %s", "x = %s + 1", "x = [%s]", "x = [1, %s, 2]", "x = f(%s)", "x = {\"k\": %s}", "x = a[%s]", "x = a[1:%s]", "if %s {\n}", "for ; %s; {\n}",
+		"a = 1\nb = 2\nx = %s", "x = %s\na = 1\nb = 2", "a = \"\\X41\"\nx = %s", "x = %s # c", "x = (%s)"}
+	n := 0
+	for _, num := range nums {
+		for ci, cx := range ctx {
+			src := fmt.Sprintf(cx, num)
+			want := strings.Count(src, "\n") + 1
+			if strings.HasPrefix(cx, "if") || strings.HasPrefix(cx, "for") {
+				want = 1
+			}
+			stmts, err, crash := impl.Parse("c07.p", src)
+			rp := replay{Src: src, Expect: "rejected-text", Kind: "malformed-numeral"}
+			switch {
+			case crash != nil:
+				rk.Fail(t, "malformed-numeral", rp, "parser crashed: %v\nsource: %q", crash, src)
+			case err == nil && len(stmts) != want:
+				rk.Fail(t, "malformed-numeral", rp, "text with the malformed numeral %q was accepted as a program of %d statements (it has %d)\nsource: %q", num, len(stmts), want, src)
+			case err != nil:
+				var pe *errchain.PlError
+				if !errors.As(err, &pe) || len(pe.PosChain) == 0 {
+					rk.Fail(t, "malformed-numeral", rp, "rejected without a positioned diagnostic: %v\nsource: %q", err, src)
+				}
+			}
+			evid.Case(fmt.Sprintf("badnum/%s/%d", num, ci), true, map[bool]string{true: "malformed-numeral/rejected", false: "malformed-numeral/read-as-something"}[err != nil])
+			n++
+		}
+	}
+	evid.Exhaustive("malformed numerals x contexts", n)
 }
 
 // FuzzLiteral: native coverage-guided search over literal bodies (thorough tier).
